@@ -177,6 +177,7 @@ def run(model: Model, rep: Report) -> None:
 
     # ---------------------------------------------------------------- R11
     _group_textboxes(model, rep)
+    _round8(model, rep)
     # ---------------------------------------------------------------- R13
     r13 = rep.rule("C08-R13", "GUARD", "the layout analysis never divides by a glyph extent (zero-width / zero-height glyphs are legal input)", 1)
     ndiv = 0
@@ -466,3 +467,27 @@ def _group_textboxes(model: Model, rep: Report) -> None:
         cnt = sum(1 for n in g.nodes if n.ast is not None and n.kind == "stmt" and "".join(unparse(n.ast).split()) == txt)
         r.check(bool(creates) and bad is None and cnt == 1, site(f, guard[0]), f.qualname, f"after a group is formed, {what} on every path, exactly once (`{txt}`)", why="a path from the creation of the group to the end of the iteration misses it" if bad is not None else f"{cnt} occurrence(s)")
     r.check("returnlist(cast(LTTextGroup,g)forginplane)" in src.replace("((", "(").replace("))", ")"), site(f), f.qualname, "the result is everything left in the plane", why="return changed")
+
+
+def _round8(model: Model, rep: Report) -> None:
+    r14 = rep.rule("C08-R14", "ORDER", "group_textlines: every neighbour of a line joins its members, and a box the neighbour was in is dissolved into them (no neighbour is skipped - the line itself is one of its neighbours, and that is how an earlier box containing it is absorbed)", 1)
+    f = model.func("pdfminer.layout.LTLayoutContainer.group_textlines")
+    inner = None
+    for n in walk_no_nested(f.node):
+        if isinstance(n, ast.For) and isinstance(n.iter, ast.Name) and any(isinstance(c, ast.Call) and isinstance(c.func, ast.Attribute) and c.func.attr == "append" and c.args and unparse(c.args[0]) == unparse(n.target) for st in n.body for c in ast.walk(st)):
+            defs = [a for a in walk_no_nested(f.node) if isinstance(a, ast.Assign) and any(isinstance(t, ast.Name) and t.id == n.iter.id for t in a.targets) and "find_neighbors" in unparse(a.value)]
+            if defs:
+                inner = n
+                break
+    if inner is None:
+        raise AnchorMissing("group_textlines: loop over the neighbours not found")
+    from ..cfg import build_cfg as _b
+
+    frag = ast.FunctionDef(name="_body", args=ast.arguments(posonlyargs=[], args=[], kwonlyargs=[], kw_defaults=[], defaults=[]), body=inner.body, decorator_list=[], lineno=inner.lineno, col_offset=0)
+    g = _b(frag, exc_edges=False)
+    tv = unparse(inner.target)
+    wit = g.all_path_pass(g.entry, lambda nd: nd.ast is not None and nd.kind == "stmt" and any(isinstance(c, ast.Call) and isinstance(c.func, ast.Attribute) and c.func.attr == "append" and c.args and unparse(c.args[0]) == tv for c in ast.walk(nd.ast)))
+    r14.check(wit is None, site(f, inner), f.qualname, f"every iteration of `for {tv} in {unparse(inner.iter)}` appends {tv} to the members", why="a neighbour can be skipped: a line that an earlier, taller line pulled into its box is then put into a second box while the first keeps it - its glyphs occur twice")
+    from .c20 import _getrange_clamp
+
+    _getrange_clamp(model, rep, "C08-R15")
